@@ -434,6 +434,10 @@ where
         + Sync
         + 'static,
 {
+    // Rewinding yields the removed records newest first,
+    // they must be restored in their original order
+    let records = records.into_iter().rev().collect::<Vec<_>>();
+
     match log_type {
         EventLogType::Identity => {
             let log = storage.identity_log().await?;
